@@ -44,10 +44,24 @@ func c11Check(cs c11Case) (clause, detail string) {
 	if cs.Reset {
 		end = seq.EndReset
 	}
-	r := runDouble(seq.Script{Input: input[:cs.Cut], Stride: cs.Stride, End: end, FailWriteFrom: cs.FailWriteFrom, CloseErr: cs.CloseErr}, func(s *redis.Server, d *srv.Double) {
-		s.SetAuthCommandHandler(d)
-		catalogueDouble(d)
-	})
+	d := srv.NewDouble()
+	server := srv.NewServer(d)
+	server.SetAuthCommandHandler(d)
+	catalogueDouble(d)
+	conn := seq.NewConn(seq.Script{Input: input[:cs.Cut], Stride: cs.Stride, End: end, FailWriteFrom: cs.FailWriteFrom, CloseErr: cs.CloseErr})
+	// what the application sees in the registry while the connection is served
+	var during []*redis.Conn
+	conn.OnRead = func(int, bool) {
+		if during == nil {
+			during = append([]*redis.Conn{}, server.Conns()...)
+		}
+	}
+	// Stride 0: the registry is not consulted between this connection's end and
+	// the next client's arrival (the leftover check follows after that client)
+	srv.NoRegistryProbe = cs.Stride == 0
+	r := seqRun{Double: d, Out: srv.RunConn(server, conn)}
+	srv.NoRegistryProbe = false
+	r.Replies, r.DecErr = resp.DecodeAll(r.Out.Reply)
 	if cl, dt := crashClause(r.Out); cl != "" {
 		return cl, dt
 	}
@@ -101,6 +115,30 @@ func c11Check(cs c11Case) (clause, detail string) {
 	}
 	if r.Out.ConnsLeft != 0 {
 		return "registry-not-empty", fmt.Sprintf("%d connections left in the registry", r.Out.ConnsLeft)
+	}
+	if cs.Stride != 0 {
+		return "", ""
+	}
+	// the next client: the registry lists it, and nothing of the connection that ended
+	var next []*redis.Conn
+	conn2 := seq.NewConn(seq.Script{Input: grammar.Encode([]string{"PING"})})
+	conn2.OnRead = func(int, bool) {
+		if next == nil {
+			next = append([]*redis.Conn{}, server.Conns()...)
+		}
+	}
+	o2 := srv.RunConn(server, conn2)
+	if cl, dt := crashClause(o2); cl != "" {
+		return "next-client-" + cl, dt
+	}
+	if !bytes.Equal(o2.Reply, []byte("+PONG\r\n")) {
+		return "next-client-not-served", fmt.Sprintf("after the cut stream, a new connection's PING was answered %s", trunc(o2.Reply, 60))
+	}
+	if len(during) == 1 && (len(next) != 1 || next[0] == during[0]) {
+		return "registry-stale", fmt.Sprintf("while the next client is served the registry lists %d connections (the ended one among them: %v)", len(next), len(next) > 0 && next[0] == during[0])
+	}
+	if o2.ConnsLeft != 0 {
+		return "registry-not-empty", fmt.Sprintf("%d connections left in the registry after the next client ended", o2.ConnsLeft)
 	}
 	return "", ""
 }
